@@ -74,6 +74,18 @@ Theorem C14_no_deadlock : forall sg r0 st0 tr s,
 Proof. exact no_deadlock. Qed.
 Print Assumptions C14_no_deadlock.
 
+(* ... and it cannot run for ever: from every reachable state there is a bound on the
+   length of every continuation without new calls (each lock region / exchange /
+   delivery strictly decreases a weight summed over the callers inside).  With
+   C14_no_deadlock: once the registry has answered every exchange, every caller returns. *)
+Theorem C14_bounded_completion : forall sg r0 st0 tr s,
+  run sg (init r0 st0) tr = Some s ->
+  exists bound, forall tr' s',
+    forallb (fun e => negb (is_get e)) tr' = true -> run sg s tr' = Some s' ->
+    (length tr' <= bound)%nat.
+Proof. exact bounded_completion. Qed.
+Print Assumptions C14_bounded_completion.
+
 (* batches linearise: for every trace (interleaving, pre-existing index r0 with
    duplicates / empty entries, injected failures) ending in a quiescent state, the
    calls that returned nil or a referrers-index-delete error — and only those — took
